@@ -18,6 +18,7 @@ import RosuModel.Model.LifeWire
 import RosuModel.Model.FiniteWire
 import RosuModel.Model.ClockRate
 import RosuModel.Model.PerfCalcWire
+import RosuModel.Model.OsuSkillWire
 import RosuModel.Model.SliderEventsWire
 import RosuModel.Model.ManiaPatternWire
 import RosuModel.Model.SkillWire
@@ -79,6 +80,7 @@ def handle (line : String) : String :=
   | "PP" :: args => PerfCalc.handlePP args
   | ["MSKILL", rate, cols, take, objs] => SkillWire.handleMSKILL rate cols take objs
   | ["CSKILL", rate, cs, take, objs] => SkillWire.handleCSKILL rate cs take objs
+  | "OSK" :: args => PerfCalc.handleOSK args
   | ["SLEV", st, sd, v, td, tot, sp] => SliderEvents.handleSLEV st sd v td tot sp
   | ["OSLD", v, sm, tr, sl] => SliderEvents.handleOSLD v sm tr sl
   | ["JUICE", v, sm, tr, objs] => SliderEvents.handleJUICE v sm tr objs
